@@ -31,7 +31,9 @@ ID = "C20"
 LEVEL = "fault_enumeration"
 
 VERIF = os.path.dirname(os.path.dirname(os.path.abspath(__file__)))
-WORK = os.path.join(VERIF, ".cache", "c20")
+# per checked tree (VERIF_REPO) and per process group, so that two runs on different trees do not share scratch space
+WORK = os.path.join(VERIF, ".cache", "c20" + ("" if not os.environ.get("VERIF_REPO") else
+                                              "-" + hashlib.sha1(os.environ["VERIF_REPO"].encode()).hexdigest()[:8]))
 PY = sys.executable
 
 # the requesting process: assemble a 1D mass-type form (not among the precompiled assemblers) and report
@@ -419,10 +421,24 @@ def schedule_problems(case):
     tag = "sched_%s_%s" % (sched, "same" if same else "diff")
     cache = os.path.join(WORK, tag)
     stage_dir = os.path.join(WORK, tag + ".baton")
+    dmg = case.get("damage")
+    if dmg:
+        tag += "_dmg_%s" % dmg["class"]
+        cache = os.path.join(WORK, tag)
+        stage_dir = os.path.join(WORK, tag + ".baton")
     for d in (cache, stage_dir):
         shutil.rmtree(d, ignore_errors=True)
     os.makedirs(moddir(cache))
     os.makedirs(stage_dir)
+    if dmg:
+        # both processes start on a cache whose entry for the requested form is damaged (crash artefact): each of them
+        # has to notice and rebuild, concurrently
+        src, order = case["src"], case["order"]
+        if not os.path.isdir(src):
+            src, order, _, _ = clean_build("replay_clean")
+        make_state(src, cache, list(order))
+        so = [r for r in order if kind_of(r) == "so"][0]
+        _damage(os.path.join(cache, so), dmg["class"], dmg.get("cut"))
     env = dict(os.environ)
     env["XDG_CACHE_HOME"] = cache
     procs, outs = {}, {}
@@ -608,6 +624,10 @@ def run(ctx):
     for same in (True, False):
         for s in sch:
             cases.append({"part": "schedule", "schedule": s, "same_form": same})
+    # the same schedules (same form) on a cache whose entry is damaged
+    for s_ in sch:
+        for dmg in ([{"class": "garbage"}] if ctx.tier == "quick" else [{"class": "garbage"}, {"class": "page", "cut": 4096}]):
+            cases.append({"part": "schedule", "schedule": s_, "same_form": True, "damage": dmg, "src": src, "order": order})
     if ctx.tier == "thorough":
         cases += [{"part": "kill", "event": n} for n in range(1, nev + 1, 2)]
         cases += [{"part": "race", "n": n, "same_form": same} for n in (2, 4, 8, 16) for same in (True, False)]
@@ -642,7 +662,7 @@ def run(ctx):
     out.sample([c for c in cases if c["part"] == "schedule"][3])
     out.rule = ("fault states: every prefix of the recorded write history x truncation class {empty, 64 B, one page, half, size-1 "
                 "(thorough: k/8, two pages)} + absent; single damages of every artefact of a complete cache (truncations, garbage, "
-                "deletion); every pair of artefacts damaged at once (product of damage classes); a second fault after the first recovery; SIGKILL at every 8th (thorough: 2nd) inotify event; schedules: "
+                "deletion); the same-form schedules also on a cache whose entry is damaged; every pair of artefacts damaged at once (product of damage classes); a second fault after the first recovery; SIGKILL at every 8th (thorough: 2nd) inotify event; schedules: "
                 "all interleavings of the 5+5 stage-boundary releases of two processes with <= 1 preemption (thorough: all 252) for the "
                 "same and for distinct forms; one free-running race (thorough: 2..16 processes). Every state is followed by a request "
                 "in a fresh process. Non-trivial = distinct fault states / schedules.")
